@@ -108,6 +108,21 @@ def swallow_sites(facts, crate_prefixes=('toml_edit::ser', 'toml::value', 'toml:
                 if pv is None:
                     continue
                 body = arm['body']
+                sem = _swallow_semantic(facts, arm)
+                if sem is not None:
+                    table, has_flag = sem
+                    if not any(table.values()):
+                        continue        # every error is passed on
+                    want = {(un, fl): (un and fl) for un in (False, True) for fl in (False, True)}
+                    okg = has_flag and table == want
+                    if not has_flag and table == {(un, fl): un for un in (False, True) for fl in (False, True)}:
+                        detail = 'Err arm matches UnsupportedNone and falls through without a flag test'
+                        out.append((d, 'pattern-only', False, detail, arm))
+                    else:
+                        cells = ', '.join(f'({"UnsupportedNone" if un else "other error"}, value {"was" if fl else "was not"} None) -> {"dropped" if v else "returned"}'
+                                          for (un, fl), v in sorted(table.items()))
+                        out.append((d, 'guarded', okg, cells, arm))
+                    continue
                 rets = [x for x in walk(body) if x.get('k') == 'ret' and any((y.get('path') or '').endswith('Result::Err') for y in walk(x))]
                 uncond = peel(body).get('k') == 'ret' or (peel(body).get('k') == 'block' and not peel(body).get('stmts') and peel(peel(body).get('expr') or {}).get('k') == 'ret')
                 if uncond:
@@ -253,3 +268,57 @@ def same_name_delegations(facts, traits=(SER, DE)):
                             pairs.append((pnames.index(a['path']), ai))
                     out.append((d, imp['self_ty'], it['name'], n, pairs, pnames))
     return out
+
+
+def _swallow_semantic(facts, arm):
+    """evaluates an `Err(e) => ..` arm for e in {UnsupportedNone, another error} x flag in {false, true};
+    returns ({(is_unsupported_none, flag): error is dropped}, a flag local was found) or None when the arm cannot be evaluated"""
+    from .den import FxInterp, Ret
+    ERR = 'core::result::Result::Err'
+    none_paths = sorted({x.get('path') or (x.get('e') or {}).get('path') for x in walk(arm) if ((x.get('path') or (x.get('e') or {}).get('path') or '')).endswith('::UnsupportedNone')})
+    if not none_paths:
+        return None
+    un_path = none_paths[0]
+    other = un_path.rsplit('::', 1)[0] + '::OtherErrorForAnalysis'
+    bound = {x['name'] for x in walk(arm['pat']) if x.get('k') == 'p_bind'}
+    for x in walk(arm['body']):
+        if x.get('k') == 'p_bind':
+            bound.add(x['name'])
+    free = {}
+    for x in walk(arm['body']):
+        if x.get('k') == 'path' and x.get('res') == 'Local' and x.get('path') not in bound:
+            free[x['path']] = x.get('t') or ''
+    if 'guard' in arm and arm['guard'] is not None:
+        for x in walk(arm['guard']):
+            if x.get('k') == 'path' and x.get('res') == 'Local' and x.get('path') not in bound:
+                free[x['path']] = x.get('t') or ''
+    flag_locals = [n for n, t in free.items() if 'MapValueSerializer' in t]
+    if any(n not in flag_locals for n in free):
+        return None
+    table = {}
+    for un in (False, True):
+        for fl in (False, True):
+            it = FxInterp(Evaluator(facts))
+            env = {n: ('struct', 'MapValueSerializer', {'is_none': fl}) for n in flag_locals}
+            env['@assign'] = {}
+            errv = ('ctor', un_path) if un else ('ctor', other)
+            # the error may be wrapped: toml's Error { inner: toml_edit::ser::Error }
+            val = ('ctor', ERR, (errv,))
+            try:
+                if not it.matches(arm['pat'], val, env):
+                    wrapped = ('ctor', ERR, (('struct', 'Error', {'inner': errv}),))
+                    if not it.matches(arm['pat'], wrapped, env):
+                        table[(un, fl)] = False      # the arm does not take this error: another arm returns it
+                        continue
+                if arm.get('guard') is not None and not it.val(arm['guard'], env):
+                    table[(un, fl)] = False
+                    continue
+                try:
+                    r = it.val(arm['body'], env)
+                except Ret as ret:
+                    r = ret.v
+            except Unanalysable:
+                return None
+            is_err = isinstance(r, tuple) and len(r) >= 2 and r[0] == 'ctor' and r[1] == ERR
+            table[(un, fl)] = not is_err
+    return table, bool(flag_locals)
